@@ -129,10 +129,28 @@ def names_rules(ctx):
     after = fi.node.body[fi.node.body.index(chain) + 1:]
     post = [norm(s) for s in after]
     # a uniform post-step that prepends the kept names?
-    kept_expr = "[list(self.fields.keys())[fid] for fid in self.ids_keep]"
-    prepend_forms = {f"self.outfields = {kept_expr} + self.outfields",
-                     "self.outfields = kept_names + self.outfields", "self.outfields = self.kept_names + self.outfields"}
-    uniform = any(p in prepend_forms for p in post)
+    # a uniform post-step `self.outfields = <kept names in ids_keep order> + self.outfields`
+    env_i = rules.local_env(fi.node)
+    uniform, kept_form = False, None
+    for st in after:
+        if isinstance(st, ast.Assign) and norm(st.targets[0]) == "self.outfields" and isinstance(st.value, ast.BinOp) \
+                and isinstance(st.value.op, ast.Add) and norm(st.value.right) == "self.outfields":
+            left = st.value.left
+            if isinstance(left, ast.Name) and env_i.get(left.id) is not None:
+                left = env_i[left.id]
+            kept_form = norm(left)
+            lc = left
+            ok_lc = isinstance(lc, ast.ListComp) and len(lc.generators) == 1 and not lc.generators[0].ifs and \
+                norm(lc.generators[0].iter) == "self.ids_keep" and isinstance(lc.generators[0].target, ast.Name) and \
+                norm(lc.elt) in (f"list(self.fields.keys())[{lc.generators[0].target.id}]",
+                                 f"list(self.fields)[{lc.generators[0].target.id}]")
+            uniform = True
+            ctx.check(ok_lc, f"{P}.ORDER", site,
+                      "kept names = the name of each index of ids_keep, in ids_keep order (the order the knives write "
+                      "the kept components)",
+                      f"the kept names are `{kept_form[:90]}`: not the names of ids_keep *in ids_keep order* — the knives "
+                      f"write kept components in the requested order, so with two kept fields requested out of Header "
+                      f"order each is stored under the other's name", key="kept-names-order", where=loc(fi, st))
 
     def leaves(stmts, cond):
         """(condition text, statements) for each innermost branch that assigns a knife"""
@@ -234,6 +252,7 @@ def run(ctx):
                   f"{s.pool_kind}: applies self.knife to mp_calls in order",
                   f"{s.pool_kind}: applies {norm(s.worker_expr)} to {norm(s.task)}", key=s.pool_kind)
     pools.rule_P7(ctx, P, prog, ck)
+    pools.rule_P3_module_ref(ctx, P, prog, [CH])
     if pl is not None:
         d = next((n for n in ast.walk(pl.loop) if isinstance(n, ast.Dict)), None)
         taskmaps.task_value_rule(ctx, P, ck, d, pl.var, {
